@@ -191,7 +191,10 @@ theorem outsAgree_cons (o : Out) (os : List Out) (so : Option Out) (sos : List (
 theorem validRun_cons (s : Sys) (k : Nat) (op : Op) (rest : List (Nat × Op)) :
     validRun s ((k, op) :: rest) = (valid s k op && match step s k op with
       | .ok r => validRun r.1 rest
-      | .error _ => false) := rfl
+      | .error _ => true) := rfl
+
+theorem validHist_cons (ty : Ty) (sp : Spec.SSys) (k : Nat) (op : Op) (rest : List (Nat × Op)) :
+    Spec.validHist ty sp ((k, op) :: rest) = (Spec.valid ty sp k op && Spec.validHist ty (Spec.step sp k op).1 rest) := rfl
 
 theorem run_cons (s : Sys) (k : Nat) (op : Op) (rest : List (Nat × Op)) :
     run s ((k, op) :: rest) = (do
@@ -202,5 +205,65 @@ theorem run_cons (s : Sys) (k : Nat) (op : Op) (rest : List (Nat × Op)) :
 theorem specRun_cons (sp : Spec.SSys) (k : Nat) (op : Op) (rest : List (Nat × Op)) :
     Spec.run sp ((k, op) :: rest) =
       ((Spec.run (Spec.step sp k op).1 rest).1, (Spec.step sp k op).2 :: (Spec.run (Spec.step sp k op).1 rest).2) := rfl
+
+/-! ### validity read off the spec state implies validity in the model state -/
+
+theorem valid_eq_supports_pre (s : Sys) (k : Nat) (op : Op) : valid s k op = (supports s.ty op && validPre s k op) := by
+  simp only [valid, validPre, Bool.and_assoc]
+
+theorem stateFree_valid1 {cap : Nat} {op : Op} (h : Spec.stateFree op = true) (d : V) :
+    valid1 cap op d = valid1 cap op [] := by
+  cases op <;> simp_all [Spec.stateFree, valid1]
+
+theorem validPre_unary (s : Sys) (k : Nat) (op : Op) (hb : isBinary op = none) :
+    validPre s k op = (decide (k < s.objs.length) &&
+      match s.objs[k]? with
+      | some d => valid1 s.cap op d
+      | none => false) := by
+  cases op <;> first | rfl | simp [isBinary] at hb
+
+theorem specValidPre_unary (sp : Spec.SSys) (k : Nat) (op : Op) (hb : isBinary op = none) :
+    Spec.validPre sp k op = (decide (k < sp.objs.length) &&
+      match Spec.getObj sp k with
+      | some l => valid1 sp.cap op l
+      | none => Spec.stateFree op && valid1 sp.cap op []) := by
+  cases op <;> first | rfl | simp [isBinary] at hb
+
+/-- a precondition that holds in the spec state (sizes the standard prescribes; nothing assumed about
+    unspecified objects) holds in every model state related to it -/
+theorem validPre_of_spec {s : Sys} {sp : Spec.SSys} (hrel : Rel s sp) (k : Nat) (op : Op)
+    (h : Spec.validPre sp k op = true) : validPre s k op = true := by
+  have hc := hrel.1
+  have hl := hrel.2.1
+  by_cases hb : isBinary op = none
+  · rw [specValidPre_unary _ _ _ hb] at h
+    rw [validPre_unary _ _ _ hb]
+    simp only [Bool.and_eq_true, decide_eq_true_eq] at h ⊢
+    obtain ⟨hk, hm⟩ := h
+    have hk' : k < s.objs.length := hl ▸ hk
+    refine ⟨hk', ?_⟩
+    obtain ⟨d, hd⟩ := getElem?_of_lt hk'
+    rw [hd]
+    cases hg : Spec.getObj sp k with
+    | some l =>
+      rw [hg] at hm
+      have h2 := hrel.get hg
+      rw [hd] at h2
+      cases h2
+      rw [← hc]
+      exact hm
+    | none =>
+      rw [hg] at hm
+      simp only [Bool.and_eq_true] at hm
+      show valid1 s.cap op d = true
+      rw [stateFree_valid1 hm.1, ← hc]
+      exact hm.2
+  · cases op <;> simp [isBinary] at hb <;> simpa [Spec.validPre, validPre, hl] using h
+
+theorem valid_of_spec {s : Sys} {sp : Spec.SSys} (hrel : Rel s sp) (k : Nat) (op : Op)
+    (h : Spec.valid s.ty sp k op = true) : valid s k op = true := by
+  rw [valid_eq_supports_pre]
+  simp only [Spec.valid, Bool.and_eq_true] at h ⊢
+  exact ⟨h.1, validPre_of_spec hrel k op h.2⟩
 
 end Tetl.C01
